@@ -45,7 +45,7 @@ def search_frag(run):
     implementation-side: the cases already executed whose traces disagree with the model are re-checked by the oracle."""
     if not os.path.exists(DRIVER):
         return None
-    for sys_ in (4608, 8192):
+    for sys_ in (4608, 8192, 10006):
         ans = driver([f'searchfrag sys={sys_} k=10'])
         if ans and ans[0].startswith('counterexample'):
             toks = dict(t.split('=', 1) for t in ans[0].split()[1:] if '=' in t)
@@ -116,10 +116,11 @@ PROPS['C13'] = {
 PROPS['C01'] = {
     'modules': ['IpcModel.Props.C01'],
     'theorems': ['C01.C01_frag', 'C01.C01_single_iff', 'C01.C01_fits', 'Frag.recvMsg_shape', 'Arith.ffs_lt', 'Arith.ffs_mono'],
-    'scenarios': frag_scen('c01', [4608, 65536, 0], [4608, 8192, 65536, 0]),
+    'scenarios': frag_scen('c01', [4608, 10006, 65536, 0], [4608, 8192, 10006, 33333, 65536, 0]),
     'search': search_frag,
     'rule': ('lengths 0,1,2,7,8,9, every length within +/-16 of each of the first four packet-capacity boundaries, seeded random lengths and one '
-             'large length, per effective send-buffer size (spoofed 4608/8192/65536 and the system default); non-trivial = more than one '
+             'large length, per effective send-buffer size (spoofed 4608/10006/65536 — 10006 is not a multiple of 8, so the aligned and the unaligned capacity differ — '
+             'and the system default; thorough adds 8192 and 33333); non-trivial = more than one '
              'system call; distinct = distinct (buffer size, length, trace)'),
     'explanation': 'fragmentation/reassembly round trip proved for every length and buffer size; packet traces compared with the model',
     'assumptions': ['kernel delivers SOCK_SEQPACKET packets atomically and in order'],
@@ -160,11 +161,12 @@ def search_wire(run):
 PROPS['C16'] = {
     'modules': ['IpcModel.Props.C16'],
     'theorems': ['C16.C16_total', 'C16.C16_sound', 'C16.C16_roundtrip', 'Wire.dec_ne_panic_all', 'Wire.dec_sound_all', 'Wire.dec_enc'],
-    'scenarios': wire_scen('dec', 2400, 40000),
+    'scenarios': (lambda a: (lambda tier, seed: a(tier, seed) + [{'args': ['crash', '--shape', str(i), '--tier', tier]} for i in ((1, 2, 5) if tier == 'thorough' else (1,))]))(wire_scen('dec', 2400, 40000)),
     'search': search_wire,
     'rule': ('12 expected types x 4 styles (random bytes; valid encoding; mutated valid encoding; mutated encoding with random attachment lists) '
              'x 0..8 channel attachments (sender or receiver ends) x 0..3 regions, each decoded by the real IpcReceiver::recv under catch_unwind; '
-             'every case is non-trivial; distinct = distinct (type, bytes, attachments)'),
+             'every case is non-trivial; distinct = distinct (type, bytes, attachments); crash: after a message whose sender process was killed mid-send (attachments attached, '
+             'discarded by the receiver) the next message must carry exactly its own attachments (count and identity probe)'),
     'explanation': ('decoder totality (never panic), soundness (endpoints are a sub-multiset of this message\'s attachments, each used once) and round trip '
                     'proved for all bytes/attachments/types of the Schema family; the real decoder compared result-by-result with the model; release of unused '
                     'attachments checked by observing disconnection and /proc/self/fd'),
@@ -214,7 +216,7 @@ PROPS['C14'] = {
 PROPS['C15'] = {
     'modules': ['IpcModel.Props.C15'],
     'theorems': ['C15.C15_limits', 'C15.C15_refuse', 'C15.C15_accept_all', 'C15.osSend_ok', 'Arith.cmsg_fits_iff', 'Arith.cmsg_writer', 'Arith.channelLength_spec'],
-    'scenarios': frag_scen('c15', [4608], [4608, 0]),
+    'scenarios': (lambda a: (lambda tier, seed: a(tier, seed) + [{'args': ['crash', '--shape', str(i), '--tier', tier]} for i in ((1, 2, 5) if tier == 'thorough' else (2,))]))(frag_scen('c15', [4608], [4608, 0])),
     'search': search_frag,
     'rule': ('attachment counts {0,1,2,31,62..66,100,252,253,254,300} (thorough: every count 0..300) x data parts {empty, 10 bytes, exactly one packet, '
              'one byte over, three packets} x {senders only, senders + regions}, plus ENOBUFS-forced fragmentation at 62..64 attachments; each case: '
